@@ -132,7 +132,18 @@ def gen_case_a(rng, W, pausable, want, maxnew=3):
         for _ in range(rng.randint(2, 4)):
             g.new()
         vals = []
-        for seg in range(rng.randint(1, 2)):
+        # "shrinking" histories: a first recording whose derivative pass allocates a long gradient vector, then most objects
+        # are destroyed and a smaller recording is seeded — the allocated length must shrink with it, or objects created
+        # after the seed fall below a stale bound and are accepted silently
+        shrink = want in ("created_after_seed", "pass_after_creation") and rng.random() < 0.5
+        extra = [g.new() for _ in range(rng.randint(3, 12))] if shrink else []
+        for seg in range(2 if shrink else rng.randint(1, 2)):
+            if shrink and seg == 1:
+                rng.shuffle(extra)
+                for k in extra:
+                    if k in g.live and len(g.live) > 2:
+                        del g.live[k]; g.emit("del %d" % k)
+                g.maxnew = 6
             g.emit("nr")
             g.program(rng.randint(2, 14))
             for k in list(g.live):
@@ -157,7 +168,7 @@ def gen_case_a(rng, W, pausable, want, maxnew=3):
                         if rng.random() < 0.35 and len(g.live) > 3:
                             k = rng.choice(list(g.live)[1:]); del g.live[k]; g.emit("del %d" % k)
                         fresh = []
-                        for _ in range(rng.randint(1, maxnew)):
+                        for _ in range(rng.randint(1, getattr(g, 'maxnew', maxnew))):
                             x = rng.random()
                             if x < 0.6:
                                 fresh.append(g.new())
